@@ -20,19 +20,32 @@ SUBPACKAGES = ["bls", "bls12_381", "bn128", "optimized_bls12_381", "optimized_bn
                "secp256k1"]
 
 
+def is_oo_index(i):
+    """run indices executed by the -OO process class.  LINE-event streams differ
+    slightly under -OO (doc strings), so the class of a run is a function of its
+    index, never of the worker count: one seed stays one execution."""
+    return i % 16 == 15
+
+
 def variants(n, seed):
+    """n standard workers (every one another hash seed and import order, some
+    with -O) plus max(1, n // 12) workers started with -OO."""
     out = []
     r = random.Random(seed * 7919 + 17)
-    for w in range(n):
+    noo = max(1, n // 12)
+    for w in range(n + noo):
         order = SUBPACKAGES[:]
         if w > 0:
             r.shuffle(order)
         flags = []
-        if w % 8 == 5:
-            flags = ["-O"]
-        elif w % 8 == 7:
+        cls = "std"
+        if w >= n:
             flags = ["-OO"]
-        out.append({"name": "w%d" % w, "hashseed": 0 if w == 0 else (w * 7919 + seed) % 4294967295,
+            cls = "OO"
+        elif w % 8 == 5:
+            flags = ["-O"]
+        out.append({"name": "w%d" % w, "class": cls,
+                    "hashseed": 0 if w == 0 else (w * 7919 + seed) % 4294967295,
                     "import_order": order, "flags": flags})
     return out
 
@@ -108,8 +121,9 @@ def run_check(tier, seed, nworkers=None, nruns=None, budget_s=None, evidence_pat
     plan = runner.build_plan(tier, nruns)
     n = len(plan)
     tmp = tempfile.mkdtemp(prefix="pyecc-sim-")
-    cache_dir = os.path.join(tmp, "gold")
-    os.makedirs(cache_dir)
+    cache_dirs = {"std": os.path.join(tmp, "gold-std"), "OO": os.path.join(tmp, "gold-OO")}
+    for d in cache_dirs.values():
+        os.makedirs(d)
     replay_dir = os.path.join(VERIF, "replays")
     env = dict(os.environ)
     env["PYTHONDONTWRITEBYTECODE"] = "1"
@@ -118,13 +132,21 @@ def run_check(tier, seed, nworkers=None, nruns=None, budget_s=None, evidence_pat
     env.pop("PYTHONOPTIMIZE", None)
     q = queue.Queue()
     vs = variants(nworkers, seed)
+    by_class = {"std": [i for i in range(n) if not is_oo_index(i)],
+                "OO": [i for i in range(n) if is_oo_index(i)]}
+    members = {c: [w for w, v in enumerate(vs) if v["class"] == c] for c in by_class}
     workers = []
     for w, v in enumerate(vs):
+        c = v["class"]
+        pos = members[c].index(w)
         job = {"seed": seed, "tier": tier, "nruns": nruns, "variant": v,
-               "cache_dir": cache_dir, "replay_dir": replay_dir,
-               "indices": list(range(w, n, nworkers)), "deadline_s": budget_s,
+               "cache_dir": cache_dirs[c],
+               "peer_cache_dirs": [d for k, d in cache_dirs.items() if k != c],
+               "replay_dir": replay_dir,
+               "indices": by_class[c][pos::len(members[c])], "deadline_s": budget_s,
                "want_records": want_records}
         workers.append(Worker(w, v, job, env, q))
+    nworkers = len(vs)
 
     agg = {
         "runs": 0, "ops": 0, "events": 0, "switches": 0, "ops_suspended": 0,
